@@ -38,7 +38,8 @@ def case_strategy(unit, allow_special, box, nhkl=3):
         "setting": st.just(unit),
         "abc": st.tuples(S.fl(3, 12), S.fl(3, 12), S.fl(3, 12)).map(list),
         "ang": st.tuples(S.fl(50, 115), S.fl(60, 120), S.fl(-1, 1)).map(list), "orth": st.integers(0, 4).map(lambda i: i == 0),
-        "atoms": st.lists(atom_strategy(allow_special), min_size=1, max_size=4),
+        "atoms": st.one_of(st.lists(atom_strategy(allow_special), min_size=1, max_size=4), st.lists(atom_strategy(allow_special), min_size=5, max_size=9)),
+        "dup": st.sampled_from([None, None, None, 0, 1]),
         "hkl": st.lists(S.hkls(box, allow_zero=True), min_size=nhkl, max_size=nhkl),
         "op": st.integers(0, 191), "ext_pick": S.fl(0, 1), "disper": st.sampled_from(["table", "table", "absent"]),
         "prev_cell": st.one_of(st.none(), st.none(), S.fl(0.7, 1.4), S.logfl(1e-8, 1e-3)),
@@ -79,7 +80,11 @@ def build(case):
     els = elements()
     M.any_special = False
     M.any_fpp = False
-    for i, a_ in enumerate(case["atoms"]):
+    atom_specs = list(case["atoms"])
+    if case.get("dup") is not None and len(atom_specs) < 9:
+        # the same site listed twice (split occupancy of one site is written exactly like this): contributions add up
+        atom_specs.append(dict(atom_specs[case["dup"] % len(atom_specs)]))
+    for i, a_ in enumerate(atom_specs):
         el = els[a_["el"]]
         if a_["special"] == 0:
             posf = [Fr(k, 9973) for k in a_["x"]]
